@@ -128,6 +128,8 @@ def shards(tier):
     fc = fault_cases(tier)
     for i in range(0, len(fc), 2):
         out.append({'faulty': [F.to_json(f) for f in fc[i:i + 2]]})
+    for f in ct_fault_cases():
+        out.append({'ct_faulty': [F.to_json(f)]})
     return out
 
 
@@ -219,6 +221,94 @@ class CtResetModel(c05.ScheduleModel):
         return None
 
 
+class CtFaultyResetModel(CtResetModel):
+    """dense online pre-reset schedules over signals with samples outside the domain of sqrt / division: the batches that contain them are
+    rejected by update(); no reference is needed (only reset() is judged) and nothing is pruned"""
+
+    def __init__(self, f, text, vs, signals):
+        self.f, self.text, self.vs, self.signals = f, text, vs, signals
+        self.n = [len(signals[v]) for v in vs]
+        self.pastify = False
+        self.failed = set()
+
+    def apply(self, obj, hist, step):
+        p = self.pos(hist)
+        batches = {v: self.signals[v][p[i]:p[i] + step[i]] for i, v in enumerate(self.vs)}
+        out = impl.outcome(impl.ct_update, obj, batches)
+        return ('ok', copy.deepcopy(out[1])) if out[0] == 'ok' else out
+
+    def check(self, hist, out, obj):
+        if out[0] != 'ok' or hist[:-1] in self.failed:
+            self.failed.add(hist)
+        return None
+
+
+def ct_fault_cases():
+    px, X, Y = F.PX, F.X, F.Y
+    sq = ('pred', '>=', ('sqrt', Y), F.C1)
+    dv = ('pred', '>=', ('/', F.C1, Y), F.C1)
+    return [('pred', '>=', ('+', ('once', (0, 1), X), ('sqrt', Y)), F.C0), ('and', ('historically', None, px), dv), ('since', None, px, sq),
+            ('or', ('once', (1, 2), sq), px), ('pred', '>=', ('+', ('sqrt', Y), ('historically', (0, 1), X)), F.C0), ('since', (0, 1), dv, px)]
+
+
+FAULT_SIGNALS = (
+    {'x': ((0.0, 2.0), (1.0, -1.0), (1.5, 2.0), (3.0, -1.0)), 'y': ((0.0, 4.0), (1.0, -1.0), (2.0, 0.0), (3.0, 4.0))},
+    {'x': ((0.0, -1.0), (2.0, 2.0), (3.0, 2.0)), 'y': ((0.0, 0.0), (0.5, 4.0), (3.0, 0.25))},
+)
+FAULT_PROBES = (
+    {'x': ((0.0, 2.0), (1.0, -1.0), (2.5, 2.0), (3.0, -1.0)), 'y': ((0.0, 0.25), (0.5, 4.0), (3.0, 4.0))},
+    {'x': ((0.0, -1.0), (0.5, -1.0), (3.0, 2.0)), 'y': ((0.0, 4.0), (2.0, 0.25), (3.0, 0.25))},
+)
+
+
+def ct_fault_explore(res, mod, f, tier):
+    vs = ['x', 'y']
+    text = 'out = ' + F.pr(f)
+    fj = F.to_json(f)
+    fresh = {}
+    for pi, ps in enumerate(FAULT_PROBES):
+        for ch in ('all', 'one'):
+            fresh[(pi, ch)] = ct_probe(impl.build('ct_on', text, vs), vs, ps, ch)
+    for si, sig in enumerate(FAULT_SIGNALS):
+        m = CtFaultyResetModel(f, text, vs, sig)
+
+        def on_state(hist, obj):
+            first = True
+            for (pi, ch), want in fresh.items():
+                if not first:
+                    obj = m.fresh()
+                    for i, e in enumerate(hist):
+                        m.apply(obj, hist[:i], e)
+                first = False
+                res.evaluations += 1
+                case = {'kind': 'ct_faulty', 'formula': fj, 'spec': text, 'vars': vs, 'signal_set': si, 'schedule': [list(s) for s in hist], 'probe': pi, 'chunk': ch}
+                r = impl.outcome(obj.reset)
+                if r[0] != 'ok':
+                    res.violation(mod, case, 'reset() after %d updates (some rejected) raised %s' % (len(hist), r[1]))
+                    res.outcomes['reset raised'] += 1
+                    return
+                got = ct_probe(obj, vs, FAULT_PROBES[pi], ch)
+                if got != want:
+                    k = next(i for i, (a, b) in enumerate(zip(got, want)) if a != b)
+                    res.violation(mod, case, 'after schedule %r (with rejected batches) and reset(), post-reset update %d returned %r; a fresh monitor returns %r'
+                                  % ([list(s) for s in hist], k + 1, got[k], want[k]))
+                    res.outcomes['differs from fresh'] += 1
+                    return
+                if hist:
+                    res.nontrivial += 1
+                if hist in m.failed:
+                    res.flags['obligations_after_a_rejected_update'] += 1
+                    res.flags['dense_obligations_after_a_rejected_update'] += 1
+                res.outcomes['as fresh'] += 1
+        st = explore.bfs(m, 64, 3000 if tier == 'quick' else 20000, 'none', None, on_state, max_states=120 if tier == 'quick' else 2000)
+        res.states += st.states
+        res.transitions += st.transitions
+        res.traces += st.executions
+        res.digest(text, si, st.states)
+    res.formulas += 1
+    return st
+
+
 PROBE_SIGNALS = (
     {'x': ((0.0, 2.0), (1.0, -1.0), (2.5, 2.0), (3.0, -1.0)), 'y': ((0.0, -1.0), (0.5, 2.0), (3.0, 2.0))},
     {'x': ((0.0, -1.0), (0.5, -1.0), (3.0, 2.0)), 'y': ((0.0, 2.0), (2.0, -1.0), (3.0, -1.0))},
@@ -304,6 +394,10 @@ def run_shard(shard, tier, res):
         f = F.from_json(fj)
         m, st = dt_explore(res, mod, f, False, (), None, tier, faulty=True)
         res.sample({'spec': m.text, 'pre_reset_states': st.states, 'of_which_after_a_rejected_update': len([h for h in m.failed]), 'probes': len(m.probes())}, 1)
+    for fj in shard.get('ct_faulty', []):
+        f = F.from_json(fj)
+        st = ct_fault_explore(res, mod, f, tier)
+        res.sample({'dense_spec': F.pr(f), 'pre_reset_states_with_rejected_batches': st.states}, 1)
     for fj, pastify in shard.get('ct', []):
         f = F.from_json(fj)
         st = ct_explore(res, mod, f, pastify, tier)
@@ -339,6 +433,18 @@ def replay(case):
             return [] if got2 == want else ['after a second reset() the outputs %r differ from a fresh monitor %r' % (got2, want)]
         return []
     vs = case['vars']
+    if case['kind'] == 'ct_faulty':
+        m = CtFaultyResetModel(f, case['spec'], vs, FAULT_SIGNALS[case['signal_set']])
+        want = ct_probe(impl.build('ct_on', case['spec'], vs), vs, FAULT_PROBES[case['probe']], case['chunk'])
+        obj = m.fresh()
+        hist = tuple(tuple(s) for s in case['schedule'])
+        for i, e in enumerate(hist):
+            m.apply(obj, hist[:i], e)
+        r = impl.outcome(obj.reset)
+        if r[0] != 'ok':
+            return ['reset() raised %s' % (r[1],)]
+        got = ct_probe(obj, vs, FAULT_PROBES[case['probe']], case['chunk'])
+        return [] if got == want else ['post-reset outputs %r differ from a fresh monitor %r' % (got, want)]
     sig = {v: [tuple(p) for p in s] for v, s in case['signals'].items()}
     m = CtResetModel(f, case['spec'], vs, sig, case['pastify'])
     want = ct_probe(impl.build('ct_on', case['spec'], vs, pastify=case['pastify']), vs, PROBE_SIGNALS[case['probe']], case['chunk'])
